@@ -4,12 +4,14 @@
   `<case-id> <response>`.
 -/
 import Driver.C05
+import Driver.C01
 
 open Driver
 
 def dispatch (prop : String) (toks : List String) : String :=
   match prop with
   | "C05" => Driver.C05.handle toks
+  | "C01" => Driver.C01.handle toks
   | _ => "bad-prop"
 
 partial def loop (hin hout : IO.FS.Stream) : IO Unit := do
